@@ -25,7 +25,8 @@ fn lab(b: bool) -> &'static str { if b { "A" } else { "B" } }
 fn has(v: &[NodeId], n: NodeId) -> bool { let mut h = false; let mut i = 0; while i < v.len() { if v[i] == n { h = true; } i += 1; } h }
 
 //@ property: C14
-//@ tier: quick
+//@ tier: thorough
+//@ optional: yes
 //@ cap_s: 600
 //@ mem_gb: 10
 //@ unwind: 5
@@ -88,7 +89,8 @@ lpg_h!(c14_labels_word, 5, {
 });
 
 //@ property: C14
-//@ tier: quick
+//@ tier: thorough
+//@ optional: yes
 //@ cap_s: 600
 //@ mem_gb: 10
 //@ unwind: 5
